@@ -42,10 +42,11 @@ for _mi, (_n, _dt, _cls, _specs) in enumerate(MODELS):
         _EXTRA[_mi] = yatiml.load_function(
             _dt, zoo.Unrel1, *_others, zoo.UnrelEnum, zoo.Unrel2)
 _COLL = [yatiml.load_function(*zoo.make_coll(v)) for v in range(3)]
-_UNI = [yatiml.load_function(*zoo.make_uni(f)) for f in (False, True)]
+_UNI = [yatiml.load_function(*zoo.make_uni(f)) for f in (0, 1, 2)]
 _COLL_MI, _UNI_MI = MODEL_IDX['coll'], MODEL_IDX['uni']
 
-T_REORDER, T_STYLE, T_EXTRA, T_GENERIC, T_BOOLFIX = range(5)
+T_REORDER, T_STYLE, T_EXTRA, T_GENERIC, T_BOOLFIX, T_ALIAS = range(6)
+NT = 6
 
 
 def _restyle(node, sstyle, flow, seen=None):
@@ -96,18 +97,20 @@ def _unordered(sig):
     return sig
 
 
-NVAR = [2, 3, 1, 3, 1]      # variants per transformation
+NVAR = [2, 3, 1, 3, 2, 1]   # variants per transformation
 
 
 def _pair(sl, site, mut, rsel, tag, vsel, p):
-    """slice = index into BASES * 5 + transformation.  Returns None (no such
+    """slice = index into BASES * NT + transformation.  Returns None (no such
     case) or (equal?, first outcome)."""
-    si, t = sl // 5, sl % 5
+    si, t = sl // NT, sl % NT
     mi, bi, n = BASES[si]
     if site >= n or mut in (MUT_ADD, pipeline.MUT_REPLACE, pipeline.MUT_DUP):
         return None
     if p >= NVAR[t] or (QUICK and t == T_STYLE and p >= 2):
         return None
+    if (mut == pipeline.MUT_ALIAS) != (t == T_ALIAS):
+        return None         # aliases: only against the JSON-style twin
     name = MODELS[mi][0]
     lim = LIM if QUICK else LIM_T
     a = mutated(mi, bi, site, mut, rsel, tag, vsel, 0, lim)
@@ -120,13 +123,18 @@ def _pair(sl, site, mut, rsel, tag, vsel, p):
     elif t == T_STYLE:
         _restyle(b.root, pick(['"', "'", None], p),
                  pick([True, False, True], p))
+    elif t == T_ALIAS:
+        # JSON style (flow, double quoted) has no anchors: every alias is
+        # written out as a copy
+        b.root = pipeline.clone(b.root)
+        _restyle(b.root, '"', True)
     elif t == T_EXTRA:
         lb = _EXTRA[mi]
     elif t == T_GENERIC:
         la, lb = pick([_COLL[0], _COLL[0], _COLL[1]], p), \
             pick([_COLL[1], _COLL[2], _COLL[2]], p)
     else:
-        la, lb = _UNI[0], _UNI[1]
+        la, lb = _UNI[0], pick([_UNI[1], _UNI[2]], p)
     ra = outcome_sig(*run_load_with(la, a.root))
     if not SYMBOLIC:
         from vlib.common import LAST
@@ -143,10 +151,10 @@ def _pair(sl, site, mut, rsel, tag, vsel, p):
 def pairs(site: int, mut: int, rsel: int, tag: str, vsel: int,
           p: int) -> bool:
     """
-    pre: 0 <= site < 28 and 0 <= mut < 7 and 0 <= rsel < 24
+    pre: 0 <= site < 28 and 0 <= mut < 8 and 0 <= rsel < 28
     pre: 1 <= len(tag) <= 40 and tag != '!'
     pre: not tag.startswith('tag:yaml.org,2002:')
-    pre: 0 <= vsel < 17 and 0 <= p < 3
+    pre: 0 <= vsel < 20 and 0 <= p < 3
     post: __return__
     """
     r = _pair(slice_no(0), site, mut, rsel, tag, vsel, p)
@@ -156,10 +164,10 @@ def pairs(site: int, mut: int, rsel: int, tag: str, vsel: int,
 def pairs_reach(site: int, mut: int, rsel: int, tag: str, vsel: int,
                 p: int) -> bool:
     """
-    pre: 0 <= site < 28 and 0 <= mut < 7 and 0 <= rsel < 24
+    pre: 0 <= site < 28 and 0 <= mut < 8 and 0 <= rsel < 28
     pre: 1 <= len(tag) <= 40 and tag != '!'
     pre: not tag.startswith('tag:yaml.org,2002:')
-    pre: 0 <= vsel < 17 and 0 <= p < 3
+    pre: 0 <= vsel < 20 and 0 <= p < 3
     post: __return__
     """
     r = _pair(slice_no(0), site, mut, rsel, tag, vsel, p)
@@ -176,21 +184,21 @@ def _slices(quick):
         if name not in pipeline.CORE or (quick and bi != 0
                                          and name != 'uni'):
             continue
-        ts = [T_REORDER, T_STYLE, T_EXTRA]
+        ts = [T_REORDER, T_STYLE, T_EXTRA, T_ALIAS]
         if name == 'coll':
             ts.append(T_GENERIC)
         if name == 'uni':
             ts.append(T_BOOLFIX)
-        out += [k * 5 + t for t in ts]
+        out += [k * NT + t for t in ts]
     return out
 
 
 ALL, QUICKS = _slices(False), _slices(True)
-_REACH = [k * 5 + T_REORDER for k, (mi, bi, n) in enumerate(BASES)
+_REACH = [k * NT + T_REORDER for k, (mi, bi, n) in enumerate(BASES)
           if MODELS[mi][0] == 'plain' and bi == 0]
 
 CONDITIONS = [
-    {'fn': 'pairs', 'slices': ALL, 'quick_slices': QUICKS, 'quick': 110,
+    {'fn': 'pairs', 'slices': ALL, 'quick_slices': QUICKS, 'quick': 220,
      'thorough': 900,
      'bound': 'one slice per (model, base document, transformation): the '
               'base document with at most one mutation (retag with a FREE '
@@ -200,9 +208,12 @@ CONDITIONS = [
               'mapping order insignificant); restyle all scalars (double, '
               'single quoted, plain; quick: the first two) and collections '
               '(flow, block) and move '
-              'all marks; register three unrelated classes; List/Sequence/'
+              'all marks; a document in which one node is an alias of another '
+              '(any pair) against its JSON-style twin (flow, double quoted, '
+              'every alias written out as a copy); register three unrelated classes; List/Sequence/'
               'MutableSequence and Dict/Mapping/MutableMapping families '
-              'pairwise (coll model); bool_union_fix added (uni model)'},
+              'pairwise (coll model); bool_union_fix added at the end or right '
+              'after bool (uni model)'},
     {'fn': 'pairs_reach', 'slices': _REACH, 'quick': 100, 'thorough': 100,
      'expect': 'REFUTED',
      'bound': 'reachability twin: a reordered valid document that loads'},
